@@ -135,3 +135,11 @@ def _beyond_int_limit(violation, m):
 
         return any(len(r) > lim for r in re.findall(r"[0-9]+", s))
     return False
+
+@matcher("ios_minor_above_9")
+def _ios_minor_above_9(violation, m):
+    """C16: ios_platforms enumerates the minors of previous major series only up to 9, so the tags of a
+    (hypothetical) iOS X.10+ are not contained in those of a later major series."""
+    inp = violation.get("input") or {}
+    return (violation.get("law") == "newer_superset" and inp.get("family") == "ios"
+            and isinstance(inp.get("v"), list) and len(inp["v"]) == 2 and inp["v"][1] > 9)
